@@ -146,7 +146,7 @@ class EventStreamPlayer(stm.Routine):
     def _play_and_delta(self, outevent):  # Was Event.playAndDelta.
         if not (self._is_muted or evt.is_rest(outevent)):
             outevent.play()
-        return outevent('delta')
+        return float(outevent('delta'))  # Cast from Rest.
 
     def play(self, clock=None, quant=None, reset=False):
         if reset:
